@@ -72,6 +72,51 @@ def recover_moved(fx, log=None):
                  and n.split('::')[0] == b.split('::')[0]]
         if len(cands) == 1 and cands[0] not in ren.values():
             ren[b] = cands[0]
+    # renamed in place: same module / owner, same signature, and essentially the same callees as the baseline function
+    # had (Jaccard >= 0.7 over at least three callees); exactly one such candidate
+    bcallees = bl.get('callees') or {}
+
+    def _owner(fid):
+        return fid.rsplit('::', 1)[0]
+
+    def _callees_now(fid):
+        cs = set()
+        for rid in [fid] + list(fx.closures_of(fid)):
+            r_ = fx.fns.get(rid)
+            if r_ is None:
+                continue
+            for bb in r_['bbs']:
+                t = bb['t']
+                if t['k'] == 'call' and not bb['c']:
+                    n_ = t['f'].get('inst') or t['f'].get('def')
+                    if n_:
+                        cs.add(n_)
+        return cs
+    taken = set(ren.values())
+    for _round in range(3):
+        grew = False
+        back_now = {n: b for b, n in ren.items()}
+        for b in missing:
+            if b in ren or not bcallees.get(b):
+                continue
+            want = set(bcallees[b])
+            # few callees: only an exact match counts
+            need = 0.7 if len(want) >= 3 else 1.0
+            cands = []
+            for n in new:
+                if n in taken or _owner(n) != _owner(b) or fx.fns[n]['locals'][:fx.fns[n]['argc'] + 1] != sigs.get(b):
+                    continue
+                # calls of the function to itself, and to functions already recognised, change name with them
+                have = {b if x == n else back_now.get(x, x) for x in _callees_now(n)}
+                j = len(want & have) / float(len(want | have) or 1)
+                if j >= need:
+                    cands.append(n)
+            if len(cands) == 1:
+                ren[b] = cands[0]
+                taken.add(cands[0])
+                grew = True
+        if not grew:
+            break
     if not ren:
         return []
     back = {n: b for b, n in ren.items()}
@@ -115,7 +160,7 @@ def recover_moved(fx, log=None):
     fx._m_by_fn = None
     fx._l_by_fn = None
     if log is not None:
-        print('tprules: moved functions recognised: %s' % ', '.join('%s <- %s' % (b.split('::')[-1], n) for b, n in ren.items()), file=log)
+        print('tprules: moved / renamed functions recognised: %s' % ', '.join('%s <- %s' % (b.split('::')[-1], n) for b, n in ren.items()), file=log)
     return sorted(ren.items())
 
 
